@@ -262,6 +262,22 @@ CLAIMS = {
         technique="static analysis: abstract evaluation + canonical-form comparison of the generated constraint schema against a reference schema (ast)",
         ref="DESIGN.md §3 C05",
     ),
+    "C06": dict(
+        text=(
+            "Decides C06 relative to reference schemas: active_edges_single_cycle (auxiliary and primitive route) and "
+            "active_edges_single_path (primitive route) are evaluated abstractly on eight small multigraphs; the canonicalised "
+            "constraint set must equal the reference (degree = passed ? 2 : 0 and the rank/root bound, exactly one root; resp. degree "
+            "rules + native connectivity of the active edges in the line graph, whose vertex pairs are recomputed independently; for "
+            "the path: degree in {1,2} iff passed, exactly two endpoints iff some edge is active) and the returned array must be the "
+            "passed-vertex flags. Deviations are triaged by enumerating the projection onto (edge flags, passed flags) against "
+            "'empty, or exactly one simple cycle/path with its visited vertices' (VIOLATION with witness, else undecided). (ALG-9) "
+            "frame form on 1x1, 1x2, 2x1 frames: same schema on the lattice graph of _from_grid_frame, result reshaped to "
+            "(height+1, width+1); plus the C14 accessor rules (ALG-1..5)."
+        ),
+        note="Trusted: exactness of the reference schemas (DESIGN.md C06), uniformity in the graph; abstract evaluator; documented meaning of the native operator.",
+        technique="static analysis: abstract evaluation + canonical-form comparison of the generated constraint schema against a reference schema (ast)",
+        ref="DESIGN.md §3 C06",
+    ),
 }
 
 NOT_APPLICABLE = {
